@@ -1169,3 +1169,16 @@ def cross_dispatch_after(kind='idle_gap'):
     return dict(buses=['A', 'B'], order=['A', 'B'], reals={'d1': ['0', '1/5'], 'd2': ['1/100', '3/10']}, handlers=handlers, main=main, horizon=9, **cfg_extra)
 
 
+
+
+
+def idle_at_handler_end(two_handlers=True):
+    """wait_until_idle() is called at the very instant the in-flight handler ends (main sleeps exactly as long as the handler), another
+    event is queued behind, and one timer of the run is noticed up to 4 loop iterations late: when the call returns nothing accepted
+    before it is unfinished."""
+    handlers = [['A', 'P', 'hP', [['sleep', 'd1'], ['ret', 'p']]], ['A', 'L', 'hL', [['sleep', 'd2'], ['ret', 'l']]], ['A', 'X', 'hX', [['ret', 'x']]]]
+    if two_handlers:
+        handlers.append(['A', 'P', 'hP2', [['ret', 'p2']]])
+    main = [['root', 'A', 'X', 'X0'], ['idle', 'A'], ['root', 'A', 'P', 'P1'], ['root', 'A', 'L', 'L1'], ['sleep', 'd1'], ['sleep_steps', 'k'], ['idle', 'A'], ['obs_all', 'end']]
+    return dict(buses=['A'], reals={'d1': ['1/100', '3/10'], 'd2': ['0', '1/10']}, ints={'k': [0, 3], 'li': [0, 14], 'lk': [0, 3]}, late_timer=['li', 'lk'],
+                handlers=handlers, main=main, horizon=6)
